@@ -121,8 +121,14 @@ def run(run):
                         try:
                             world[50] = do_derive(op, world[a], world[b])
                             got = 'ok ' + defs.state(world[50])
-                        except ValueError:
+                        except ValueError as exc:
                             got = 'ValueError'
+                            listed = defs.conflict_pairs(str(exc))
+                            if listed is not None:
+                                rq = 'dconflicts %d %d' % (a, b)
+                                wantc = drv.ask(rq)
+                                if listed != wantc:
+                                    run.fail('pairs listed in the conflict message of %r on pool[%d], pool[%d]' % (op, a, b), listed, wantc, reqs + [rq])
                         except KeyError as e:
                             got = 'KeyError %s' % defs.names(e.args[0])
                         if got != ans:
@@ -170,6 +176,10 @@ def run(run):
                 run.fail('model: context of definition', mans, want, [line, 'dctx 0'])
             if tuple(c.shape) != tuple(d.shape) or c.fill_ratio != d.fill_ratio:
                 run.fail('shape / fill_ratio differ between context and definition', [tuple(c.shape), c.fill_ratio], [tuple(d.shape), d.fill_ratio], [line])
+            msh = drv.ask('dshape 0')
+            gsh = '%d %d %d' % (d.shape[0], d.shape[1], d.fill_ratio.numerator * (n * m // d.fill_ratio.denominator))
+            if msh != gsh:
+                run.fail('shape / number of true cells of the definition', gsh, msh, [line, 'dshape 0'])
             true_cells = sum(bin(r).count('1') for r in rows)
             if tuple(c.shape) != (n, m) or (c.fill_ratio.numerator * n * m != true_cells * c.fill_ratio.denominator):
                 run.fail('shape / fill_ratio wrong', [tuple(c.shape), str(c.fill_ratio)], [(n, m), '%d/%d' % (true_cells, n * m)], [line])
